@@ -755,6 +755,35 @@ pub fn deviations() -> Vec<(usize, String, Box<dyn Fn(&mut RuleSpec) + Send + Sy
     d
 }
 
+/// A small universe around the host layer: several rules on the same dynamic host, a dynamic host whose
+/// regex extends another one, literal hosts and any-host rules. Explored to a greater insert depth so
+/// that every insertion order of every small subset is covered (lookup-or-create of per-host buckets).
+pub fn host_focus_universe() -> Vec<RuleSpec> {
+    let mk = |id: &str, label: &str, host: Option<&str>, marker: Option<(&str, &str)>, path: &str| {
+        let mut r = RuleSpec::base(id);
+        r.label = label.to_string();
+        r.host = host.map(|h| h.to_string());
+        if let Some((n, e)) = marker {
+            r.markers.push((n.to_string(), e.to_string()));
+        }
+        r.path = path.to_string();
+        r
+    };
+    let mut v = vec![
+        mk("h1", "dyn host @h.example #1", Some("@h.example"), Some(("h", "(cat|dog)")), "/a"),
+        mk("h2", "dyn host @h.example #2 (same host bucket)", Some("@h.example"), Some(("h", "(cat|dog)")), "/a"),
+        mk("h3", "dyn host @h.example.org (regex extends @h.example)", Some("@h.example.org"), Some(("h", "(cat|dog)")), "/a"),
+        mk("h4", "dyn host @h.example [a-z]+", Some("@h.example"), Some(("h", "[a-z]+")), "/a"),
+        mk("h5", "literal host cat.example", Some("cat.example"), None, "/a"),
+        mk("h6", "any host", None, None, "/a"),
+        mk("h7", "dyn host @h.example #3 other path", Some("@h.example"), Some(("h", "(cat|dog)")), "/b"),
+    ];
+    for (i, r) in v.iter_mut().enumerate() {
+        r.rank = (i + 1) as u16;
+    }
+    v
+}
+
 /// `pairs`: 0 = singles only, 1 = singles + a fixed selection of cross-dimension pairs, 2 = all pairs
 pub fn star_and_pairs_universe(pairs: u8) -> Vec<RuleSpec> {
     let devs = deviations();
